@@ -129,7 +129,14 @@ def fam_stalta(ctx, rng):
     recs = build(items, dt, unit)
     before = snap.snap(recs)
     kw = dict(sta_seconds=sta, lta_seconds=lta, min_sta_lta_ratio=lo, max_sta_lta_ratio=hi, components=comps)
-    out = hvsrpy.sta_lta_window_rejection(recs, hvsr=hv, **kw)
+    kw_call, recs_call = kw, recs
+    if rng.random() < 0.3:
+        # the windows as a tuple, the limits as other numeric types holding the same values
+        types = ["float", "float64", "zero-dim-array", "int", "int64"]
+        kw_call = dict(kw, **{k_: gen.scalar_form(rng, kw[k_], allow=types)[0] for k_ in ("sta_seconds", "lta_seconds", "min_sta_lta_ratio", "max_sta_lta_ratio")})
+        recs_call = tuple(recs) if rng.random() < 0.6 else recs
+        ctx.count("calls_with_arguments_in_other_forms")
+    out = hvsrpy.sta_lta_window_rejection(recs_call, hvsr=hv, **kw_call)
     ctx.count("rejection_calls")
     ctx.check(snap.snap(recs) == before, "recordings-unchanged", "sta_lta_window_rejection modified the windows", **info)
     ids = [id(r) for r in recs]
@@ -209,7 +216,13 @@ def fam_maxvalue(ctx, rng):
     ctx.describe(**info)
     recs = build(items, dt)
     before = snap.snap(recs)
-    out = hvsrpy.maximum_value_window_rejection(recs, maximum_value_threshold=thr, normalized=normalized, components=comps, hvsr=hv)
+    thr_call, recs_call, norm_call = thr, recs, normalized
+    if rng.random() < 0.3:
+        thr_call = gen.scalar_form(rng, thr, allow=["float", "float64", "zero-dim-array"])[0]
+        recs_call = tuple(recs) if rng.random() < 0.6 else recs
+        norm_call = np.bool_(normalized) if rng.random() < 0.5 else int(normalized)       # truthy / falsy flags of other types
+        ctx.count("calls_with_arguments_in_other_forms")
+    out = hvsrpy.maximum_value_window_rejection(recs_call, maximum_value_threshold=thr_call, normalized=norm_call, components=comps, hvsr=hv)
     ctx.count("rejection_calls")
     ctx.check(snap.snap(recs) == before, "recordings-unchanged", "maximum_value_window_rejection modified the windows", **info)
     ids = [id(r) for r in recs]
